@@ -246,6 +246,9 @@ def run(ctx):
     number_and_wrap_rules(ctx)
     fasta_append_rules(ctx, "R1")
     text_layer_rules(ctx, "R1")
+    # the convenience writers store every sequence they are given: a store that each iteration makes into the SAME key keeps the last
+    from ..lints import loop_updates_kept
+    loop_updates_kept(ctx, "sequence/io/general.py", "R1.every-sequence-stored", 1)
     # ---------------- R1 coupling -----------------------------------------
     n_w = 0
     for cls, (rel, fields, reindexer) in COUPLED.items():
